@@ -151,6 +151,10 @@ def handle (st : DState) (ws : List String) : String × DState :=
   | ["mpde", _rk, lim, fhex, hex] =>
       let (c, v, pos) := MD.run {} lim.toNat! (filterOf fhex) (unhex hex)
       pure s!"{showCode c} {showVal v} {pos} {hexOrDash (MD.ser v)}"
+  | ["mpde0", _rk, lim, fhex, hex] =>
+      let (c, v, pos) := MD.run {} lim.toNat! (filterOf fhex) (unhex hex)
+      let v := MD.narrowDoubles v
+      pure s!"{showCode c} {showVal v} {pos} {hexOrDash (MD.ser v)}"
   | ["mpspec", hex] =>
       match MSpec.decodeTop (unhex hex) with
       | some (v, []) => pure (showMV v)
